@@ -1,7 +1,462 @@
-//! C20 — stub (monitor not built yet)
-use crate::run::{Ctx, Report, Stats};
-pub fn run(_ctx: &Ctx) -> Report {
-    let mut r = Report::new(Stats::default(), "not built");
-    r.inconclusive.push("monitor-not-built".into());
-    r
+//! C20 — mismatched shapes rejected; operands never mutated; clones independent.
+use crate::json::J;
+use crate::model::{vec_to_ohsl, DM};
+use crate::mon::c03::{rand_dm, rand_vec, rval};
+use crate::mon::common::*;
+use crate::rat::Rat;
+use crate::rng::Rng;
+use crate::run::{catch, par_run, Ctx, Outcome, Report, Stats};
+use ohsl::{Banded, Matrix, Mesh1D, Mesh2D, Polynomial, Sparse, Tridiagonal, Vector};
+
+const TAG: u64 = 0xC20;
+const MAXS: usize = 6;
+
+type V = Vector<Rat>;
+type M = Matrix<Rat>;
+
+fn rv(rng: &mut Rng, n: usize) -> V { vec_to_ohsl(&rand_vec(rng, n)) }
+fn rm(rng: &mut Rng, r: usize, c: usize) -> M { rand_dm(rng, r, c).to_ohsl() }
+fn rband(rng: &mut Rng, n: usize, m1: usize, m2: usize) -> Banded<Rat> {
+    let mut b = Banded::<Rat>::new(n, m1, m2, Rat::int(7));
+    for i in 0..n { for j in 0..n { if j <= i + m2 && i <= j + m1 { b[(i, j)] = Rat::int(rng.int(1, 9)); } } }
+    b
+}
+fn rtri(rng: &mut Rng, n: usize) -> Tridiagonal<Rat> {
+    Tridiagonal::with_vecs((0..n - 1).map(|_| rval(rng)).collect(), (0..n).map(|_| Rat::int(rng.int(1, 9))).collect(), (0..n - 1).map(|_| rval(rng)).collect())
+}
+fn rsparse(rng: &mut Rng, r: usize, c: usize) -> Sparse<f64> {
+    let mut t = vec![];
+    for i in 0..r { for j in 0..c { if i == j || rng.chance(0.3) { t.push((i, j, 1.0 + rng.unit())); } } }
+    Sparse::<f64>::from_triplets(r, c, &mut t)
+}
+
+// ---------- snapshots (all observable state, read defensively) ----------
+fn snap_m(m: &M) -> String { match catch(|| DM::from_ohsl(m).show()) { Outcome::Ok(s) => format!("{}|len{}", s, m.verif_storage_len()), _ => format!("unreadable {}x{} len{}", m.rows(), m.cols(), m.verif_storage_len()) } }
+fn snap_b(b: &Banded<Rat>) -> String { format!("n{} m1{} m2{} {}", b.size(), b.size_below(), b.size_above(), snap_m(b.compact())) }
+fn snap_t(t: &Tridiagonal<Rat>) -> String { format!("n{} {:?} {:?} {:?}", t.size(), t.subdiagonal().vec, t.maindiagonal().vec, t.superdiagonal().vec) }
+fn snap_s(s: &Sparse<f64>) -> String { format!("{}x{} nz{} {:?} {:?} {:?}", s.rows, s.cols, s.nonzero, s.val.iter().map(|x| x.to_bits()).collect::<Vec<_>>(), s.row_index, s.col_start) }
+
+/// the call must be rejected (any panic); a return value is a violation
+fn must_panic<R>(st: &mut Stats, name: &str, detail: &dyn Fn() -> String, f: impl FnOnce() -> R) {
+    st.eval();
+    st.count(&format!("table:{}", name));
+    match catch(f) {
+        Outcome::Panic { .. } => st.count("rejections"),
+        Outcome::Overflow => st.count("skipped:rat-overflow"),
+        _ => st.violation(&format!("C20:{}:accepted", name), format!("{} returned instead of panicking; {}", name, detail())),
+    }
+}
+/// rejected AND the receiver is exactly as before
+fn must_panic_mut<X, R>(st: &mut Stats, name: &str, detail: &dyn Fn() -> String, x: &mut X, snap: impl Fn(&X) -> String, f: impl FnOnce(&mut X) -> R) {
+    let before = snap(x);
+    st.eval();
+    st.count(&format!("table:{}", name));
+    match catch(|| f(x)) {
+        Outcome::Panic { .. } => { st.count("rejections"); let after = snap(x); if after != before { st.violation(&format!("C20:{}:mutated-before-panic", name), format!("{} panicked but left the receiver changed: before {} after {}; {}", name, before, after, detail())); } }
+        Outcome::Overflow => st.count("skipped:rat-overflow"),
+        _ => st.violation(&format!("C20:{}:accepted", name), format!("{} returned instead of panicking (receiver now {}); {}", name, snap(x), detail())),
+    }
+}
+
+fn table_vector(st: &mut Stats, rng: &mut Rng) {
+    for n in 0..=MAXS { for m in 0..=MAXS { if n == m { continue; }
+        st.next_case();
+        let (a, b) = (rv(rng, n), rv(rng, m));
+        let d = || format!("sizes {} vs {}", n, m);
+        must_panic(st, "Vector:add(&,&)", &d, || &a + &b);
+        must_panic(st, "Vector:add(v,&)", &d, || a.clone() + &b);
+        must_panic(st, "Vector:add(v,v)", &d, || a.clone() + b.clone());
+        must_panic(st, "Vector:sub(&,&)", &d, || &a - &b);
+        must_panic(st, "Vector:sub(v,&)", &d, || a.clone() - &b);
+        must_panic(st, "Vector:sub(v,v)", &d, || a.clone() - b.clone());
+        must_panic(st, "Vector:dot", &d, || a.dot(&b));
+        let mut x = a.clone(); must_panic_mut(st, "Vector:add_assign", &d, &mut x, |v| format!("{:?}", v.vec), |v| *v += b.clone());
+        let mut x = a.clone(); must_panic_mut(st, "Vector:sub_assign", &d, &mut x, |v| format!("{:?}", v.vec), |v| *v -= b.clone());
+        let (af, bf) = (Vector::<f64>::new(n, 1.5), Vector::<f64>::new(m, 2.0));
+        must_panic(st, "Vector:dot_f64", &d, || af.dot_f64(&bf));
+        st.nontrivial(hmix(hash_str("vec"), (n * 10 + m) as u64));
+    } }
+    for n in 0..=MAXS {
+        let a = rv(rng, n);
+        for s in 0..=n + 2 { for e in 0..=n + 2 { if s > e || s >= n || e >= n {
+            st.next_case();
+            let d = || format!("size {} range ({},{})", n, s, e);
+            must_panic(st, "Vector:sum_slice", &d, || a.sum_slice(s, e));
+            must_panic(st, "Vector:product_slice", &d, || a.product_slice(s, e));
+        } } }
+        for i in n..=n + 2 {
+            let d = || format!("size {} index {}", n, i);
+            must_panic(st, "Vector:index", &d, || a[i]);
+            let mut x = a.clone(); must_panic_mut(st, "Vector:index_mut", &d, &mut x, |v| format!("{:?}", v.vec), |v| v[i] = Rat::ONE);
+            let mut x = a.clone(); must_panic_mut(st, "Vector:swap", &d, &mut x, |v| format!("{:?}", v.vec), |v| v.swap(0, i));
+            if i > n { let mut x = a.clone(); must_panic_mut(st, "Vector:insert", &d, &mut x, |v| format!("{:?}", v.vec), |v| v.insert(i, Rat::ONE)); }
+        }
+    }
+    let mut e = V::empty();
+    must_panic_mut(st, "Vector:pop-empty", &|| "empty".into(), &mut e, |v| format!("{:?}", v.vec), |v| v.pop());
+}
+
+fn table_matrix(st: &mut Stats, rng: &mut Rng, r: usize, c: usize) {
+    let a = rm(rng, r, c);
+    let sm = |m: &M| snap_m(m);
+    for r2 in 0..=4usize { for c2 in 0..=4usize {
+        st.next_case();
+        let b = rm(rng, r2, c2);
+        let d = || format!("{}x{} vs {}x{}", r, c, r2, c2);
+        if (r, c) != (r2, c2) {
+            must_panic(st, "Matrix:add(&,&)", &d, || &a + &b);
+            must_panic(st, "Matrix:add(m,m)", &d, || a.clone() + b.clone());
+            must_panic(st, "Matrix:sub(&,&)", &d, || &a - &b);
+            must_panic(st, "Matrix:sub(m,m)", &d, || a.clone() - b.clone());
+            let mut x = a.clone(); must_panic_mut(st, "Matrix:add_assign(&)", &d, &mut x, sm, |m| *m += &b);
+            let mut x = a.clone(); must_panic_mut(st, "Matrix:add_assign(m)", &d, &mut x, sm, |m| *m += b.clone());
+            let mut x = a.clone(); must_panic_mut(st, "Matrix:sub_assign(&)", &d, &mut x, sm, |m| *m -= &b);
+            let mut x = a.clone(); must_panic_mut(st, "Matrix:sub_assign(m)", &d, &mut x, sm, |m| *m -= b.clone());
+        }
+        if c != r2 {
+            must_panic(st, "Matrix:mul(&,&)", &d, || &a * &b);
+            must_panic(st, "Matrix:mul(m,m)", &d, || a.clone() * b.clone());
+        }
+    } }
+    for n in 0..=MAXS {
+        let v = rv(rng, n);
+        let d = || format!("{}x{} with vector of size {}", r, c, n);
+        if n != c {
+            must_panic(st, "Matrix:multiply", &d, || a.multiply(&v));
+            must_panic(st, "Matrix:mul(&,&v)", &d, || &a * &v);
+            must_panic(st, "Matrix:mul(m,v)", &d, || a.clone() * v.clone());
+            for row in 0..r { let mut x = a.clone(); must_panic_mut(st, "Matrix:set_row(size)", &|| format!("{} row {}", d(), row), &mut x, sm, |m| m.set_row(row, v.clone())); }
+        }
+        if n != r { for col in 0..c { let mut x = a.clone(); must_panic_mut(st, "Matrix:set_col(size)", &|| format!("{} col {}", d(), col), &mut x, sm, |m| m.set_col(col, v.clone())); } }
+        if n != r || r != c {
+            let mut x = a.clone(); must_panic_mut(st, "Matrix:solve_basic", &d, &mut x, sm, |m| m.solve_basic(&v));
+            let mut x = a.clone(); must_panic_mut(st, "Matrix:solve_lu", &d, &mut x, sm, |m| m.solve_lu(&v));
+        }
+    }
+    if r != c {
+        let d = || format!("non-square {}x{}", r, c);
+        let mut x = a.clone(); must_panic_mut(st, "Matrix:lu_decomp_in_place", &d, &mut x, sm, |m| m.lu_decomp_in_place());
+        must_panic(st, "Matrix:inverse", &d, || a.inverse());
+        if r > 0 && c > 0 { must_panic(st, "Matrix:determinant", &d, || a.determinant()); }
+    }
+    for i in r..=r + 2 {
+        let d = || format!("{}x{} row {}", r, c, i);
+        must_panic(st, "Matrix:get_row", &d, || a.get_row(i));
+        let mut x = a.clone(); must_panic_mut(st, "Matrix:set_row(range)", &d, &mut x, sm, |m| m.set_row(i, rv(&mut Rng::new(1), c)));
+        let mut x = a.clone(); must_panic_mut(st, "Matrix:delete_row", &d, &mut x, sm, |m| m.delete_row(i));
+        let mut x = a.clone(); must_panic_mut(st, "Matrix:fill_row", &d, &mut x, sm, |m| m.fill_row(i, Rat::ONE));
+        for k in 0..=r { let mut x = a.clone(); must_panic_mut(st, "Matrix:swap_rows", &|| format!("{} with {}", d(), k), &mut x, sm, |m| if k % 2 == 0 { m.swap_rows(i, k) } else { m.swap_rows(k, i) }); }
+    }
+    for j in c..=c + 2 {
+        let d = || format!("{}x{} col {}", r, c, j);
+        must_panic(st, "Matrix:get_col", &d, || a.get_col(j));
+        let mut x = a.clone(); must_panic_mut(st, "Matrix:set_col(range)", &d, &mut x, sm, |m| m.set_col(j, rv(&mut Rng::new(2), r)));
+        let mut x = a.clone(); must_panic_mut(st, "Matrix:fill_col", &d, &mut x, sm, |m| m.fill_col(j, Rat::ONE));
+    }
+    st.nontrivial(hmix(hash_str("mat"), (r * 10 + c) as u64));
+}
+
+fn table_banded(st: &mut Stats, rng: &mut Rng) {
+    let shapes: Vec<(usize, usize, usize)> = vec![(1, 0, 0), (2, 0, 1), (2, 1, 0), (3, 1, 1), (3, 2, 0), (4, 1, 2), (5, 2, 2), (6, 1, 1)];
+    for &(n, m1, m2) in &shapes {
+        let a = rband(rng, n, m1, m2);
+        for &(n2, p1, p2) in &shapes { if (n, m1, m2) == (n2, p1, p2) { continue; }
+            st.next_case();
+            let b = rband(rng, n2, p1, p2);
+            let d = || format!("banded ({},{},{}) vs ({},{},{})", n, m1, m2, n2, p1, p2);
+            must_panic(st, "Banded:add(&,&)", &d, || &a + &b);
+            must_panic(st, "Banded:add(b,b)", &d, || a.clone() + b.clone());
+            must_panic(st, "Banded:sub(&,&)", &d, || &a - &b);
+            must_panic(st, "Banded:sub(b,b)", &d, || a.clone() - b.clone());
+            let mut x = a.clone(); must_panic_mut(st, "Banded:add_assign(&)", &d, &mut x, snap_b, |m| *m += &b);
+            let mut x = a.clone(); must_panic_mut(st, "Banded:add_assign(b)", &d, &mut x, snap_b, |m| *m += b.clone());
+            let mut x = a.clone(); must_panic_mut(st, "Banded:sub_assign(&)", &d, &mut x, snap_b, |m| *m -= &b);
+            let mut x = a.clone(); must_panic_mut(st, "Banded:sub_assign(b)", &d, &mut x, snap_b, |m| *m -= b.clone());
+        }
+        for k in 0..=MAXS { if k == n { continue; }
+            let v = rv(rng, k);
+            let d = || format!("banded ({},{},{}) with vector of size {}", n, m1, m2, k);
+            must_panic(st, "Banded:mul(&,&v)", &d, || &a * &v);
+            must_panic(st, "Banded:mul(b,v)", &d, || a.clone() * v.clone());
+            must_panic(st, "Banded:solve", &d, || a.solve(&v));
+        }
+        for band in -(m1 as isize) - 2..=(m2 as isize) + 2 { if band < -(m1 as isize) || band > m2 as isize {
+            let mut x = a.clone(); must_panic_mut(st, "Banded:fill_band", &|| format!("banded ({},{},{}) band {}", n, m1, m2, band), &mut x, snap_b, |m| m.fill_band(band, Rat::ONE));
+        } }
+        for i in 0..n { for j in 0..n { if j > i + m2 || i > j + m1 {
+            let d = || format!("banded ({},{},{}) position ({},{}) outside the band", n, m1, m2, i, j);
+            must_panic(st, "Banded:index(out-of-band)", &d, || a[(i, j)]);
+            let mut x = a.clone(); must_panic_mut(st, "Banded:index_mut(out-of-band)", &d, &mut x, snap_b, |m| m[(i, j)] = Rat::ONE);
+        } } }
+        st.nontrivial(hmix(hash_str("band"), (n * 100 + m1 * 10 + m2) as u64));
+    }
+}
+
+fn table_tridiagonal(st: &mut Stats, rng: &mut Rng) {
+    for n in 1..=MAXS {
+        let a = rtri(rng, n);
+        for m in 1..=MAXS { if m == n { continue; }
+            st.next_case();
+            let b = rtri(rng, m);
+            let d = || format!("tridiagonal {} vs {}", n, m);
+            must_panic(st, "Tridiagonal:add", &d, || a.clone() + b.clone());
+            must_panic(st, "Tridiagonal:sub", &d, || a.clone() - b.clone());
+        }
+        for k in 0..=MAXS { if k == n { continue; }
+            let v = rv(rng, k);
+            let d = || format!("tridiagonal {} with vector of size {}", n, k);
+            must_panic(st, "Tridiagonal:mul(&,&v)", &d, || &a * &v);
+            must_panic(st, "Tridiagonal:mul(t,v)", &d, || a.clone() * v.clone());
+            must_panic(st, "Tridiagonal:solve", &d, || a.solve(&v));
+        }
+        for i in 0..n + 2 { for j in 0..n + 2 { if i >= n || j >= n || (i as isize - j as isize).abs() > 1 {
+            let d = || format!("tridiagonal {} position ({},{})", n, i, j);
+            must_panic(st, "Tridiagonal:index", &d, || a[(i, j)]);
+            let mut x = a.clone(); must_panic_mut(st, "Tridiagonal:index_mut", &d, &mut x, snap_t, |t| t[(i, j)] = Rat::ONE);
+        } } }
+        // constructors with inconsistent diagonal lengths
+        for ls in 0..=n + 1 { for lu in 0..=n + 1 { if ls != n - 1 || lu != n - 1 {
+            let d = || format!("main {} sub {} sup {}", n, ls, lu);
+            must_panic(st, "Tridiagonal:with_vecs", &d, || Tridiagonal::with_vecs(vec![Rat::ONE; ls], vec![Rat::ONE; n], vec![Rat::ONE; lu]));
+            must_panic(st, "Tridiagonal:with_vectors", &d, || Tridiagonal::with_vectors(V::new(ls, Rat::ONE), V::new(n, Rat::ONE), V::new(lu, Rat::ONE)));
+        } } }
+        st.nontrivial(hmix(hash_str("tri"), n as u64));
+    }
+}
+
+fn table_sparse(st: &mut Stats, rng: &mut Rng) {
+    for r in 1..=4usize { for c in 1..=4usize {
+        st.next_case();
+        let s = rsparse(rng, r, c);
+        let d = || format!("sparse {}x{}", r, c);
+        for k in 0..=MAXS {
+            let v = Vector::<f64>::new(k, 1.0);
+            if k != c { must_panic(st, "Sparse:multiply", &|| format!("{} vector {}", d(), k), || s.multiply(&v)); }
+            if k != r { must_panic(st, "Sparse:transpose_multiply", &|| format!("{} vector {}", d(), k), || s.transpose_multiply(&v)); }
+        }
+        for i in r..=r + 2 { must_panic(st, "Sparse:get(row)", &|| format!("{} row {}", d(), i), || s.get(i, 0)); }
+        for j in c..=c + 2 { must_panic(st, "Sparse:get(col)", &|| format!("{} col {}", d(), j), || s.get(0, j)); }
+        for (i, j) in [(r, 0), (r + 1, c - 1), (0, c), (r - 1, c + 2), (r, c)] {
+            let mut x = rsparse(rng, r, c);
+            must_panic_mut(st, "Sparse:insert", &|| format!("{} at ({},{})", d(), i, j), &mut x, snap_s, |m| m.insert(i, j, 2.5));
+            must_panic(st, "Sparse:from_triplets", &|| format!("{} triplet ({},{})", d(), i, j), || Sparse::<f64>::from_triplets(r, c, &mut vec![(0, 0, 1.0), (i, j, 2.0)]));
+        }
+        // solver entry points: non-square, or b / x of the wrong size; x must stay untouched
+        for kb in 0..=5usize { for kx in 0..=5usize {
+            if r == c && kb == r && kx == r { continue; }
+            let b = Vector::<f64>::new(kb, 1.0);
+            let dd = || format!("{} b {} x {}", d(), kb, kx);
+            let sx = |v: &Vector<f64>| format!("{:?}", v.vec.iter().map(|x| x.to_bits()).collect::<Vec<_>>());
+            let mut x = Vector::<f64>::new(kx, 0.25); must_panic_mut(st, "Sparse:solve_cg", &dd, &mut x, sx, |x| s.solve_cg(&b, x, 10, 1e-8));
+            let mut x = Vector::<f64>::new(kx, 0.25); must_panic_mut(st, "Sparse:solve_bicg", &dd, &mut x, sx, |x| s.solve_bicg(&b, x, 10, 1e-8, 1));
+            let mut x = Vector::<f64>::new(kx, 0.25); must_panic_mut(st, "Sparse:solve_bicgstab", &dd, &mut x, sx, |x| s.solve_bicgstab(&b, x, 10, 1e-8));
+            let mut x = Vector::<f64>::new(kx, 0.25); must_panic_mut(st, "Sparse:solve_qmr", &dd, &mut x, sx, |x| s.solve_qmr(&b, x, 10, 1e-8));
+        } }
+        if r == c { for itol in [0usize, 3, 7] { let b = Vector::<f64>::new(r, 1.0); let mut x = Vector::<f64>::new(r, 0.25); must_panic_mut(st, "Sparse:solve_bicg(itol)", &|| format!("{} itol {}", d(), itol), &mut x, |v| format!("{:?}", v.vec), |x| s.solve_bicg(&b, x, 10, 1e-8, itol)); } }
+        st.nontrivial(hmix(hash_str("sparse"), (r * 10 + c) as u64));
+    } }
+}
+
+fn table_mesh_poly(st: &mut Stats, rng: &mut Rng) {
+    for n in 2..=5usize { for nv in 1..=3usize {
+        st.next_case();
+        let nodes = Vector::<f64>::linspace(0.0, 1.0, n);
+        let mut m1 = Mesh1D::<Rat, f64>::new(nodes.clone(), nv);
+        for i in 0..n { m1.set_nodes_vars(i, rv(rng, nv)); }
+        let s1 = |m: &Mesh1D<Rat, f64>| format!("{:?}", (0..m.nnodes()).map(|i| m.get_nodes_vars(i).vec).collect::<Vec<_>>());
+        for i in n..=n + 2 {
+            let d = || format!("Mesh1D nodes {} vars {} node {}", n, nv, i);
+            must_panic(st, "Mesh1D:get_nodes_vars", &d, || m1.get_nodes_vars(i));
+            must_panic(st, "Mesh1D:coord", &d, || m1.coord(i));
+            must_panic(st, "Mesh1D:index", &d, || m1[i].clone());
+            must_panic_mut(st, "Mesh1D:set_nodes_vars(node)", &d, &mut m1, s1, |m| m.set_nodes_vars(i, V::new(nv, Rat::ONE)));
+        }
+        for k in 0..=nv + 2 { if k != nv { must_panic_mut(st, "Mesh1D:set_nodes_vars(size)", &|| format!("Mesh1D vars {} vector {}", nv, k), &mut m1, s1, |m| m.set_nodes_vars(0, V::new(k, Rat::ONE))); } }
+        let ny = (n % 3) + 2;
+        let mut m2 = Mesh2D::<Rat>::new(nodes.clone(), Vector::<f64>::linspace(0.0, 2.0, ny), nv);
+        for i in 0..n { for j in 0..ny { m2.set_nodes_vars(i, j, rv(rng, nv)); } }
+        let s2 = move |m: &Mesh2D<Rat>| format!("{:?}", (0..n).flat_map(|i| (0..ny).map(move |j| (i, j))).map(|(i, j)| m.get_nodes_vars(i, j).vec).collect::<Vec<_>>());
+        for (i, j) in [(n, 0), (n + 1, ny - 1), (0, ny), (n - 1, ny + 2), (n, ny)] {
+            let d = || format!("Mesh2D {}x{} vars {} node ({},{})", n, ny, nv, i, j);
+            must_panic(st, "Mesh2D:get_nodes_vars", &d, || m2.get_nodes_vars(i, j));
+            must_panic_mut(st, "Mesh2D:set_nodes_vars(node)", &d, &mut m2, s2, |m| m.set_nodes_vars(i, j, V::new(nv, Rat::ONE)));
+        }
+        for i in n..=n + 1 { must_panic(st, "Mesh2D:cross_section_xnode", &|| format!("Mesh2D nx {} node {}", n, i), || m2.cross_section_xnode(i).nnodes()); must_panic(st, "Mesh2D:coord(x)", &|| format!("nx {} node {}", n, i), || m2.coord(i, 0)); }
+        for j in ny..=ny + 1 { must_panic(st, "Mesh2D:cross_section_ynode", &|| format!("Mesh2D ny {} node {}", ny, j), || m2.cross_section_ynode(j).nnodes()); must_panic(st, "Mesh2D:coord(y)", &|| format!("ny {} node {}", ny, j), || m2.coord(0, j)); }
+        for v in nv..=nv + 2 {
+            let d = || format!("Mesh2D vars {} var {}", nv, v);
+            must_panic(st, "Mesh2D:var_as_matrix", &d, || m2.var_as_matrix(v));
+            must_panic_mut(st, "Mesh2D:apply(var)", &d, &mut m2, s2, |m| m.apply(&|_x, _y| Rat::ONE, v));
+        }
+        for k in 0..=nv + 2 { if k != nv { must_panic_mut(st, "Mesh2D:set_nodes_vars(size)", &|| format!("Mesh2D vars {} vector {}", nv, k), &mut m2, s2, |m| m.set_nodes_vars(0, 0, V::new(k, Rat::ONE))); } }
+        let mf = Mesh2D::<f64>::new(nodes.clone(), Vector::<f64>::linspace(0.0, 2.0, ny), nv);
+        let mf1 = Mesh1D::<f64, f64>::new(nodes.clone(), nv);
+        for v in nv..=nv + 2 { must_panic(st, "Mesh2D:trapezium(var)", &|| format!("vars {} var {}", nv, v), || mf.trapezium(v)); must_panic(st, "Mesh2D:square_trapezium(var)", &|| format!("vars {} var {}", nv, v), || mf.square_trapezium(v)); must_panic(st, "Mesh1D:trapezium(var)", &|| format!("vars {} var {}", nv, v), || mf1.trapezium(v)); }
+        st.nontrivial(hmix(hash_str("mesh"), (n * 10 + nv) as u64));
+    } }
+    for n in 0..=MAXS {
+        st.next_case();
+        let c = rand_vec(rng, n);
+        let p = Polynomial::new(c.clone());
+        for i in n..=n + 2 {
+            let d = || format!("polynomial of size {} index {}", n, i);
+            must_panic(st, "Polynomial:index", &d, || p[i]);
+            let mut x = p.clone(); must_panic_mut(st, "Polynomial:index_mut", &d, &mut x, |q| format!("{:?}", (0..q.size()).map(|k| q[k]).collect::<Vec<_>>()), |q| q[i] = Rat::ONE);
+        }
+        st.nontrivial(hmix(hash_str("poly"), n as u64));
+    }
+}
+
+// ---------- non-mutation of operands, owned == borrowed, with hostile bit patterns ----------
+fn hostile(rng: &mut Rng) -> f64 {
+    match rng.below(8) {
+        0 => -0.0, 1 => f64::from_bits(1 + rng.below(1000)), 2 => f64::from_bits(0x7ff8_0000_0000_0000 | rng.below(1 << 20)), 3 => f64::from_bits(0xfff8_0000_0000_0001),
+        4 => 0.0, _ => rng.sym() * 4.0,
+    }
+}
+fn bits(v: &[f64]) -> Vec<u64> { v.iter().map(|x| x.to_bits()).collect() }
+fn mbits(m: &Matrix<f64>) -> Vec<u64> { let mut o = vec![m.rows() as u64, m.cols() as u64]; for i in 0..m.rows() { for j in 0..m.cols() { o.push(m[(i, j)].to_bits()); } } o }
+
+fn non_mutation(st: &mut Stats, rng: &mut Rng) {
+    st.next_case();
+    let n = rng.usize(1, 6);
+    let nan_ok = rng.chance(0.5);
+    let mut g = |rng: &mut Rng| { let x = hostile(rng); if !nan_ok && x.is_nan() { 1.25 } else { x } };
+    let (a, b): (Vec<f64>, Vec<f64>) = ((0..n).map(|_| g(rng)).collect(), (0..n).map(|_| g(rng)).collect());
+    let (va, vb) = (Vector::create(a.clone()), Vector::create(b.clone()));
+    let d = || format!("a={:x?} b={:x?}", bits(&a), bits(&b));
+    macro_rules! same_vec { ($name:expr, $x:expr, $y:expr) => {{ st.eval(); match (catch(|| $x), catch(|| $y)) { (Outcome::Ok(p), Outcome::Ok(q)) => if bits(&p.vec) != bits(&q.vec) { st.violation(&format!("C20:{}:owned-differs-from-borrowed", $name), d()); }, (Outcome::Panic{..}, Outcome::Panic{..}) => {}, _ => st.violation(&format!("C20:{}:owned-differs-from-borrowed", $name), format!("one form panicked; {}", d())) } }}; }
+    same_vec!("Vector:add", &va + &vb, va.clone() + vb.clone());
+    same_vec!("Vector:add(v,&)", &va + &vb, va.clone() + &vb);
+    same_vec!("Vector:sub", &va - &vb, va.clone() - vb.clone());
+    let _ = catch(|| (va.dot(&vb), va.sum_slice(0, n - 1), va.product_slice(0, n - 1), va.abs(), va.norm_1(), va.norm_2(), va.norm_p(3.0), va.norm_inf(), va.clone(), va.size()));
+    if rng.chance(0.03) { let _ = catch(|| va.dot_f64(&vb)); } // thread creation is expensive in this VM
+    st.eval();
+    if bits(&va.vec) != bits(&a) || bits(&vb.vec) != bits(&b) { st.violation("C20:Vector:operand-mutated", d()); }
+    // matrices
+    let (r, c) = (rng.usize(1, 4), rng.usize(1, 4));
+    let mk = |rng: &mut Rng, r: usize, c: usize, g: &mut dyn FnMut(&mut Rng) -> f64| { let mut m = Matrix::<f64>::new(r, c, 0.0); for i in 0..r { for j in 0..c { m[(i, j)] = g(rng); } } m };
+    let ma = mk(rng, r, c, &mut g); let mb = mk(rng, r, c, &mut g); let mc = mk(rng, c, r, &mut g);
+    let (sa, sb, sc) = (mbits(&ma), mbits(&mb), mbits(&mc));
+    let vx = Vector::create((0..c).map(|_| g(rng)).collect::<Vec<f64>>()); let sx = bits(&vx.vec);
+    macro_rules! same_mat { ($name:expr, $x:expr, $y:expr) => {{ st.eval(); match (catch(|| $x), catch(|| $y)) { (Outcome::Ok(p), Outcome::Ok(q)) => if mbits(&p) != mbits(&q) { st.violation(&format!("C20:{}:owned-differs-from-borrowed", $name), format!("A={:x?} B={:x?}", sa, sb)); }, (Outcome::Panic{..}, Outcome::Panic{..}) => {}, _ => st.violation(&format!("C20:{}:owned-differs-from-borrowed", $name), "one form panicked".to_string()) } }}; }
+    same_mat!("Matrix:neg", -&ma, -ma.clone());
+    same_mat!("Matrix:add", &ma + &mb, ma.clone() + mb.clone());
+    same_mat!("Matrix:sub", &ma - &mb, ma.clone() - mb.clone());
+    same_mat!("Matrix:mul-scalar", &ma * 1.5, ma.clone() * 1.5);
+    same_mat!("Matrix:div-scalar", &ma / 1.5, ma.clone() / 1.5);
+    same_mat!("Matrix:mul", &ma * &mc, ma.clone() * mc.clone());
+    st.eval();
+    if let (Outcome::Ok(p), Outcome::Ok(q)) = (catch(|| &ma * &vx), catch(|| ma.clone() * vx.clone())) { if bits(&p.vec) != bits(&q.vec) { st.violation("C20:Matrix:mul-vector:owned-differs-from-borrowed", format!("A={:x?}", sa)); } }
+    let _ = catch(|| (ma.multiply(&vx), ma.get_row(0), ma.get_col(0), ma.transpose(), ma.norm_1(), ma.norm_inf(), ma.norm_p(2.5), ma.norm_frob(), ma.norm_max(), ma.rows(), ma.numel()));
+    if r == c { let _ = catch(|| ma.determinant()); let _ = catch(|| ma.inverse()); }
+    st.eval();
+    if mbits(&ma) != sa || mbits(&mb) != sb || mbits(&mc) != sc || bits(&vx.vec) != sx { st.violation("C20:Matrix:operand-mutated", format!("A={:x?}", sa)); }
+    // banded / tridiagonal / sparse / polynomial on finite data
+    let nb = rng.usize(1, 5); let (m1, m2) = (rng.usize(0, nb - 1), rng.usize(0, nb - 1));
+    let mut bd = Banded::<f64>::new(nb, m1, m2, -0.0);
+    for i in 0..nb { for j in 0..nb { if j <= i + m2 && i <= j + m1 { bd[(i, j)] = if i == j { 4.0 + rng.unit() } else { rng.sym() }; } } }
+    let sbd = mbits(bd.compact()); let vb2 = Vector::create((0..nb).map(|_| rng.sym()).collect::<Vec<f64>>()); let svb2 = bits(&vb2.vec);
+    st.eval();
+    for (name, x, y) in [("Banded:neg", catch(|| mbits((-&bd).compact())), catch(|| mbits((-bd.clone()).compact()))), ("Banded:add", catch(|| mbits((&bd + &bd).compact())), catch(|| mbits((bd.clone() + bd.clone()).compact()))), ("Banded:sub", catch(|| mbits((&bd - &bd).compact())), catch(|| mbits((bd.clone() - bd.clone()).compact()))), ("Banded:mul-scalar", catch(|| mbits((&bd * 3.0).compact())), catch(|| mbits((bd.clone() * 3.0).compact()))), ("Banded:div-scalar", catch(|| mbits((&bd / 3.0).compact())), catch(|| mbits((bd.clone() / 3.0).compact())))] {
+        if let (Outcome::Ok(p), Outcome::Ok(q)) = (x, y) { if p != q { st.violation(&format!("C20:{}:owned-differs-from-borrowed", name), format!("compact={:x?}", sbd)); } }
+    }
+    if let (Outcome::Ok(p), Outcome::Ok(q)) = (catch(|| &bd * &vb2), catch(|| bd.clone() * vb2.clone())) { if bits(&p.vec) != bits(&q.vec) { st.violation("C20:Banded:mul-vector:owned-differs-from-borrowed", format!("compact={:x?}", sbd)); } }
+    let _ = catch(|| (bd.det(), bd.solve(&vb2), bd.size()));
+    if mbits(bd.compact()) != sbd || bits(&vb2.vec) != svb2 { st.violation("C20:Banded:operand-mutated", format!("compact={:x?}", sbd)); }
+    let nt = rng.usize(1, 6);
+    let tr = Tridiagonal::with_vecs((0..nt - 1).map(|_| rng.sym()).collect::<Vec<f64>>(), (0..nt).map(|_| 3.0 + rng.unit()).collect(), (0..nt - 1).map(|_| rng.sym()).collect());
+    let st_t = |t: &Tridiagonal<f64>| (bits(&t.subdiagonal().vec), bits(&t.maindiagonal().vec), bits(&t.superdiagonal().vec));
+    let s0 = st_t(&tr); let vt = Vector::create((0..nt).map(|_| rng.sym()).collect::<Vec<f64>>()); let svt = bits(&vt.vec);
+    st.eval();
+    if let (Outcome::Ok(p), Outcome::Ok(q)) = (catch(|| &tr * &vt), catch(|| tr.clone() * vt.clone())) { if bits(&p.vec) != bits(&q.vec) { st.violation("C20:Tridiagonal:mul-vector:owned-differs-from-borrowed", format!("{:x?}", s0)); } }
+    let _ = catch(|| (tr.det(), tr.solve(&vt), tr.transpose().size(), tr.convert().rows(), tr.clone().size()));
+    if st_t(&tr) != s0 || bits(&vt.vec) != svt { st.violation("C20:Tridiagonal:operand-mutated", format!("{:x?}", s0)); }
+    let ns = rng.usize(1, 6);
+    let sp = rsparse(rng, ns, ns); let ssp = snap_s(&sp);
+    let bsp = Vector::create((0..ns).map(|_| rng.sym()).collect::<Vec<f64>>()); let sbsp = bits(&bsp.vec);
+    st.eval();
+    let _ = catch(|| { let mut x = Vector::<f64>::new(ns, 0.0); let _ = sp.solve_cg(&bsp, &mut x, 5, 1e-8); let _ = sp.solve_bicg(&bsp, &mut x, 5, 1e-8, 1); let _ = sp.solve_bicgstab(&bsp, &mut x, 5, 1e-8); let _ = sp.solve_qmr(&bsp, &mut x, 5, 1e-8); (sp.multiply(&bsp), sp.transpose_multiply(&bsp), sp.transpose().nonzero, sp.to_dense().rows(), sp.to_triplets().len(), sp.get(0, 0), sp.col_index().size()) });
+    if snap_s(&sp) != ssp || bits(&bsp.vec) != sbsp { st.violation("C20:Sparse:operand-mutated", ssp.clone()); }
+    let pc: Vec<f64> = (0..rng.usize(1, 6)).map(|_| g(rng)).collect(); let qc: Vec<f64> = (0..rng.usize(1, 6)).map(|_| g(rng)).collect();
+    let (pp, qq) = (Polynomial::new(pc.clone()), Polynomial::new(qc.clone()));
+    let pb = |p: &Polynomial<f64>| (0..p.size()).map(|i| p[i].to_bits()).collect::<Vec<_>>();
+    st.eval();
+    for (name, x, y) in [("Polynomial:add", catch(|| pb(&(&pp + &qq))), catch(|| pb(&(pp.clone() + qq.clone())))), ("Polynomial:sub", catch(|| pb(&(&pp - &qq))), catch(|| pb(&(pp.clone() - qq.clone())))), ("Polynomial:mul", catch(|| pb(&(&pp * &qq))), catch(|| pb(&(pp.clone() * qq.clone())))), ("Polynomial:mul-scalar", catch(|| pb(&(&pp * 1.5))), catch(|| pb(&(pp.clone() * 1.5)))), ("Polynomial:neg", catch(|| pb(&(-&pp))), catch(|| pb(&(-pp.clone()))))] {
+        if let (Outcome::Ok(p), Outcome::Ok(q)) = (x, y) { if p != q { st.violation(&format!("C20:{}:owned-differs-from-borrowed", name), format!("p={:x?} q={:x?}", bits(&pc), bits(&qc))); } }
+    }
+    let _ = catch(|| (pp.eval(0.5), pp.derivative().size(), pp.degree(), pp.is_zero(), pp.polydiv(&qq).is_ok()));
+    if pc.len() >= 2 && pc.iter().all(|x| x.is_finite()) && pc[pc.len() - 1] != 0.0 { let _ = catch(|| pp.roots(true)); }
+    if pb(&pp) != bits(&pc) || pb(&qq) != bits(&qc) { st.violation("C20:Polynomial:operand-mutated", format!("p={:x?}", bits(&pc))); }
+    st.count("non-mutation-cases");
+    st.nontrivial(hmix(hash_str("nonmut"), bits(&a).iter().fold(n as u64, |h, x| hmix(h, *x))));
+}
+
+// ---------- clone independence under interleaved mutations ----------
+fn clone_independence(st: &mut Stats, rng: &mut Rng) {
+    st.next_case();
+    // Matrix
+    let (r, c) = (rng.usize(1, 4), rng.usize(1, 4));
+    let mut da = rand_dm(rng, r, c); let mut db = da.clone();
+    let mut a = da.to_ohsl(); let mut b = a.clone();
+    let mut log = vec![];
+    for _ in 0..rng.usize(2, 12) {
+        let on_a = rng.bool();
+        let (m, d): (&mut M, &mut DM<Rat>) = if on_a { (&mut a, &mut da) } else { (&mut b, &mut db) };
+        let (i, j, s) = (rng.usize(0, d.r - 1), rng.usize(0, d.c - 1), rval(rng));
+        match rng.below(5) {
+            0 => { m[(i, j)] = s; d.a[i][j] = s; log.push(format!("{}[({},{})]={:?}", if on_a { "a" } else { "b" }, i, j, s)); }
+            1 => { m.fill_row(i, s); for q in 0..d.c { d.a[i][q] = s; } log.push(format!("{}.fill_row({},{:?})", if on_a { "a" } else { "b" }, i, s)); }
+            2 => { *m += s; for row in d.a.iter_mut() { for v in row.iter_mut() { *v = *v + s; } } log.push(format!("{}+={:?}", if on_a { "a" } else { "b" }, s)); }
+            3 => { m.transpose_in_place(); *d = d.transpose(); log.push(format!("{}.transpose_in_place()", if on_a { "a" } else { "b" })); }
+            _ => { m.swap_rows(i, 0); d.a.swap(i, 0); log.push(format!("{}.swap_rows({},0)", if on_a { "a" } else { "b" }, i)); }
+        }
+        st.eval();
+        if !da.eq_ohsl(&a) || !db.eq_ohsl(&b) { st.violation("C20:Matrix:clone-not-independent", format!("after {:?}: a={} (model {}) b={} (model {})", log, snap_m(&a), da.show(), snap_m(&b), db.show())); break; }
+    }
+    // Vector, Banded, Tridiagonal, Polynomial: mutate the clone, the original must keep its snapshot, and vice versa
+    let vn = rng.usize(1, 6); let v = rv(rng, vn); let mut w = v.clone(); let sv = format!("{:?}", v.vec);
+    w[0] = Rat::int(99); w.push(Rat::ONE); w *= Rat::int(2);
+    st.eval(); if format!("{:?}", v.vec) != sv { st.violation("C20:Vector:clone-not-independent", sv.clone()); }
+    let bd = rband(rng, 4, 1, 2); let mut be = bd.clone(); let sb = snap_b(&bd);
+    be[(1, 1)] = Rat::int(99); be *= Rat::int(3); be.fill_band(0, Rat::int(5));
+    st.eval(); if snap_b(&bd) != sb { st.violation("C20:Banded:clone-not-independent", sb.clone()); }
+    let mut bd2 = bd.clone(); let sbe = snap_b(&be); bd2 += Rat::ONE; let _ = &bd2;
+    if snap_b(&be) != sbe { st.violation("C20:Banded:clone-not-independent", sbe); }
+    let t = rtri(rng, 4); let mut u = t.clone(); let stt = snap_t(&t);
+    u[(0, 0)] = Rat::int(99); u *= Rat::int(2); u.transpose_in_place();
+    st.eval(); if snap_t(&t) != stt { st.violation("C20:Tridiagonal:clone-not-independent", stt); }
+    let p = Polynomial::new(rand_vec(rng, 4)); let mut q = p.clone(); let sp = format!("{:?}", (0..p.size()).map(|k| p[k]).collect::<Vec<_>>());
+    q[0] = Rat::int(99); q.coeffs().push(Rat::ONE);
+    st.eval(); if format!("{:?}", (0..p.size()).map(|k| p[k]).collect::<Vec<_>>()) != sp { st.violation("C20:Polynomial:clone-not-independent", sp); }
+    st.count("clone-cases");
+    st.nontrivial(hmix(hash_str("clone"), rng.u64()));
+}
+
+pub fn run(ctx: &Ctx) -> Report {
+    let nmat = 25u64; // matrix shapes 0..4 x 0..4
+    let fixed = 5u64;
+    let nrand = ctx.vol(600, 40_000);
+    let stats = par_run(ctx, TAG, fixed + nmat + nrand, |u, rng, st| {
+        match u {
+            0 => table_vector(st, rng),
+            1 => table_banded(st, rng),
+            2 => table_tridiagonal(st, rng),
+            3 => table_sparse(st, rng),
+            4 => table_mesh_poly(st, rng),
+            u if u < fixed + nmat => { let v = (u - fixed) as usize; table_matrix(st, rng, v / 5, v % 5); }
+            _ => { for _ in 0..10 { non_mutation(st, rng); clone_independence(st, rng); } }
+        }
+    });
+    let entry_points: Vec<String> = stats.counters.keys().filter(|k| k.starts_with("table:")).map(|k| k[6..].to_string()).collect();
+    let mut rep = Report::new(stats,
+        "must-panic table: every binary operator / compound assignment / product / solver entry / checked accessor of Vector, Matrix, Banded, Tridiagonal, Sparse, Mesh1D, Mesh2D, Polynomial called with all mismatched size pairs up to 6 (matrices: all shape pairs in [0,4]^2) and every out-of-range row/column/band/node/variable/index up to size+2; for &mut entry points the receiver is snapshotted (all entries + private storage length) and must be identical after the caught panic. Non-mutation: every by-reference operator and &self method on operands containing -0.0, subnormals and NaN payloads, operands compared bit-for-bit afterwards, owned vs borrowed forms bit-identical. Clone independence: interleaved mutations on a matrix and its clone, each against its own model, plus mutate-the-clone checks for Vector, Banded, Tridiagonal, Polynomial. Non-trivial: each table row group / random case; distinct = distinct (type,sizes) or case hashes. The raw (i,j) index operators of Matrix, Banded (beyond the band test) and Mesh2D are outside the claim");
+    rep.assumptions = vec!["any panic counts as a rejection".into(), "Sparse and the meshes have no Clone; their clone independence is vacuous".into()];
+    rep.min_nontrivial = 150;
+    let mut ex = J::obj();
+    ex.set("entry_points", J::Arr(entry_points.iter().map(|s| J::s(s)).collect()));
+    ex.set("entry_point_count", J::UInt(entry_points.len() as u64));
+    ex.set("exhaustive_parts", J::Arr(vec![J::s("the whole must-panic table (seed-independent sizes; values random)")]));
+    rep.extra = ex;
+    rep
 }
